@@ -1,6 +1,7 @@
 from props import job
 
 _T = "TestVerifC08Atomic"
+_TF = "TestVerifC08FwdPkgReplay"
 
 PROP = dict(
     level="exploration",
@@ -8,7 +9,12 @@ PROP = dict(
                "channelLinks, lnwallet channels, circuit maps, invoice registry; one database per node), message tap and "
                "connection cuts through the mock servers' intercept hook, whole-network restarts on the same databases; "
                "scenario-independent conservation oracle on the durable state at quiescence plus causal rules on the "
-               "tapped wire log"),
+               "tapped wire log. Second job (TestVerifC08FwdPkgReplay): ONE real channelLink on a real lnwallet channel pair "
+               "and channeldb; generated bidirectional histories driven synchronously through the two state machines so that "
+               "real forwarding packages are written by ReceiveRevocation, generated ack/forward-filter subsets set through "
+               "the channeldb API or a signed fail carrying the SourceRef, then the link is started with ForwardPackets, the "
+               "invoice registry and the peer queue recorded and its start-up replay is compared with a reference model of "
+               "the forwarding-package contract (structural barrier: NotifyActiveChannel + no forwardBatch goroutine left)"),
     rule=("One case = one generated plan: 1-8 payments Alice->Bob->Carol / Carol->Bob->Alice (receiver amount around "
           "min_htlc 5 sat, around the dust limits 200/800 sat and dust+HTLC-fee thresholds, mid, 30-65% of a channel side, "
           "97-150% of a side; invoice kind valid / overpaid / underpaid / unknown hash / hold-then-settle / hold-then-cancel; "
@@ -49,7 +55,30 @@ PROP = dict(
           "Non-trivial = the lifetimes (first add on the wire .. result known to the sender) of >=2 payments overlapped AND "
           "(a cut fired OR a restart found an HTLC / pending commitment in some durable channel state OR a flap hit a "
           "channel that was not clean). Distinct = "
-          "distinct plans."),
+          "distinct plans. "
+          "TestVerifC08FwdPkgReplay (start-up replay of forwarding packages, deterministic): one case = 1-3 epochs on one "
+          "channel Alice(link under test)<->Bob(bare state machine). Epoch = [Alice offers 0-4 outgoing HTLCs (the node's "
+          "forwards), separately or in the same commitment dance as Bob's first round] + [0-2 rounds: Bob offers 0-3 ADDs "
+          "(exit hop hold invoice / exit hop open invoice / exit hop unknown hash / forward to another channel / undecodable "
+          "onion; dust or not) interleaved in a drawn order with 0-2 SETTLEs/FAILs of drawn locked-in outgoing HTLCs, full "
+          "dance => ReceiveRevocation writes ONE package with exactly these updates; the package is left in FwdStateLockedIn "
+          "(link went down right after the revocation was persisted; at most the last round of an epoch) or gets the "
+          "forwarding decision persisted with SetFwdFilter] + [ack step over all packages on disk: forwarded/held ADDs of "
+          "processed packages acked with p=1/2 via AckAddHtlcs or via FailHTLC(SourceRef)+signed commitment, SETTLE/FAILs "
+          "acked via AckSettleFails with p=0.3 (0.12 in a locked-in package), or everything the link handed over so far, "
+          "with the references carried by the recorded packets] + [link start on the restored channel, structural "
+          "barrier, link stop] + [the peer takes the link's fulfill/fail/commit_sig and the dance is completed]. Oracle "
+          "per start, from the forwarding-package contract: every SETTLE/FAIL whose SettleFailFilter bit is clear is handed "
+          "to the switch exactly once with outgoing key (scid, htlc id), DestRef (scid, height, index) and the preimage / "
+          "reason of the package, none whose bit is set; every ADD whose AckFilter bit is clear is reprocessed exactly once "
+          "(forward: packet with incoming key, SourceRef (height, index), next channel, amount, expiry, hash, replay flag "
+          "== forwarding decision was persisted; exit hop: one NotifyExitHopHtlc with hash/amount/circuit key, then one "
+          "update_fulfill_htlc with the invoice preimage or one update_fail_htlc; undecodable: one "
+          "update_fail_malformed_htlc), none that is acked; exactly one commit_sig iff the replay answered an HTLC, and the "
+          "peer's state machine accepts it; afterwards on disk: completed packages removed, no other package removed, "
+          "every locked-in package with ADDs is processed with FwdFilter == {forwards}, AckFilter == before + the ADDs "
+          "answered in the signed commitment, SettleFailFilter unchanged, no unknown package. Non-trivial = some start "
+          "replays a package holding an un-acked ADD together with a not yet acked SETTLE/FAIL."),
     level_note=("Weak by nature: the interleaving of link, switch and mailbox goroutines is chosen by the Go runtime; the "
                 "harness controls only the payment batch, the cut points, the restart points and the order of its own "
                 "calls. Trigger points are message counts, so the same plan explores different schedules on different "
@@ -79,13 +108,29 @@ PROP = dict(
         "fatal makes the case inconclusive (counter), never a violation; the dangling-HTLC verdict (G) is structural, "
         "not a timeout",
         "Switch.GetAttemptResult is never called concurrently with Switch.Stop (WaitGroup Add/Wait race in lnd otherwise)",
+        "FwdPkgReplay: the history is driven on the lnwallet state machines while the link is down (no live link path), "
+        "the switch is replaced by a recorder (ForwardPackets) so circuits and mailboxes are not involved; mock onion "
+        "decoder (fresh per link), real invoice registry; link restarts without channel_reestablish (SyncStates=false), "
+        "all commitment dances complete at a start so the link's revocation window is open; ack bits for ADDs only in "
+        "packages whose forwarding decision is persisted (a locked-in package cannot have acked ADDs in lnd), FwdFilter "
+        "written by the harness equals what the link computes (all decodable non-exit ADDs); a forward ADD missing from "
+        "the FwdFilter of a processed package (not reachable without a policy change between restarts) is not generated",
+        "FwdPkgReplay: a locked-in package WITHOUT ADDs is never marked processed by the start-up replay (resolveFwdPkg "
+        "calls processRemoteAdds only when the AckFilter is not full), so it is never garbage collected - disk leak only, "
+        "not asserted (its presence after the start is 'don't care'); a package completed by the replay's own signed "
+        "answers may or may not have been collected by the garbage collector's initial pass",
+        "FwdPkgReplay: the only wait is for the link goroutine to reach NotifyActiveChannel and for the forwardBatch "
+        "goroutines it spawned to finish (runtime.Stack shows none); deadline 60 s (VERIF_C08F_DEADLINE_S) => inconclusive; "
+        "any error of the harness' own state-machine calls => inconclusive (counter), never a violation",
     ],
     jobs=dict(
         quick=[
             job("htlcswitch", "^TestVerifC08Atomic$", [_T], 30, shards=8, timeout=1500),
+            job("htlcswitch", "^TestVerifC08FwdPkgReplay$", [_TF], 100, shards=4, timeout=600),
         ],
         thorough=[
             job("htlcswitch", "^TestVerifC08Atomic$", [_T], 25, shards=12, timeout=2400, race=True),
+            job("htlcswitch", "^TestVerifC08FwdPkgReplay$", [_TF], 40, shards=8, timeout=1500, race=True),
         ],
     ),
 )
